@@ -19,25 +19,21 @@ impl GenerationPass for EliminateDeadCodeDirectionsPass {
             changed = false;
             #[cfg(feature = "rva_verif")]
             crate::verif::sweep();
-            let old = nodes.clone();
             for node in nodes {
-                if node.is_return() || node.is_any_entry() || node.might_terminate() {
+                if node.is_any_entry() {
                     continue;
                 }
-                // (A node that leads nowhere - a call whose callee ends the
-                // program, the last line of the text - is not dead: only what
-                // nothing leads to is.)
-
-                // If the node has no prevs, remove it from the nexts of all its nexts
-                if node.prevs().is_empty() {
+                // Nothing leads to the node: it is dead and leads nowhere
+                // either. (A node that leads nowhere - a call whose callee
+                // ends the program, the last line of the text - is not dead.)
+                if node.prevs().is_empty() && !node.nexts().is_empty() {
                     for next in node.nexts().clone() {
                         next.remove_prev(node);
                     }
                     node.clear_nexts();
+                    // the nodes behind it may have lost their last way in
+                    changed = true;
                 }
-            }
-            if &old != nodes {
-                changed = true;
             }
         }
 
